@@ -15,7 +15,7 @@ RULE = ('Generated full sessions on dense markets: start anywhere 1995-2039 with
         '14:30 start); burn-in absent / before the start / exactly on a rebalance instant / one minute after one / '
         'arbitrary / after the end; alpha fixed-weight or universe-driven behind a recording wrapper; static and '
         'dynamic universes; both sizers; fees. Oracle: recorded alpha calls and allocation-row dates == [r in the '
-        'session\'s own schedule if r is a clock instant of the independent calendar and r >= burn-in]; every fill '
+        'documented schedule of the configured kind (independent calendar) if r is a clock instant and r >= burn-in]; every fill '
         'is at 14:30 on a weekday and not before the first such instant; equity timestamps == 21:00 of every '
         'independent-calendar business day whose close is >= burn-in, each value == initial cash - sum of (price*qty + '
         'commission) of the tapped fills so far + sum net quantity x that day\'s generated close (1e-9); the '
@@ -23,8 +23,9 @@ RULE = ('Generated full sessions on dense markets: start anywhere 1995-2039 with
         'dated <= that date (NaN before the first). Non-trivial = burn-in strictly inside the range with >= 1 '
         'scheduled instant before it and >= 1 at/after it and >= 1 fill.')
 ASSUMPTIONS = [
-    'rebalance instants are taken from the session\'s own schedule (C13 owns their correctness); the business-day grid '
-    'comes from the independent calendar',
+    'scheduled instants and the business-day grid both come from the independent calendar, so a wrong schedule class '
+    'is reported here as well as by C13 (deliberate: a session that derives the wrong schedule does not trade at the '
+    'scheduled instants)',
     'dense markets with data from 7 days before the start; fill prices/commissions as tapped (C05/C08 own them)',
     'the allocation table is only checked when at least one rebalance and one equity point exist',
 ]
@@ -41,11 +42,17 @@ def run_case(case):
     d0, d1 = cal.date3(cfg['start']), cal.date3(cfg['end'])
     burn = None if cfg.get('burn_in') is None else cal.ts6(cfg['burn_in'])
     clock = set(t for t, _ in cal.clock_events(d0, d1, False, False))
-    sched = list(r.bt.rebalance_schedule)
-    exp_calls = [x for x in sched if x in clock and (burn is None or x >= burn)]
+    # the scheduled instants of the configured rebalance kind, from the independent calendar (the documented
+    # schedules: C13 states them; a session that derives a different schedule does not run "at exactly those
+    # scheduled instants")
+    sched = [cal.ts6(v) for v in sessgen.instants(cfg, cfg['start'], cfg['end'])]
+    sched = [x for x in sched if x in clock]
+    own = [x for x in r.bt.rebalance_schedule if x in clock]
+    exp_calls = [x for x in sched if burn is None or x >= burn]
     if list(r.calls) != exp_calls:
-        raise Violation('portfolio construction ran at %s; scheduled instants at/after burn-in %s are %s' % (
-            [str(x) for x in r.calls][:6], burn, [str(x) for x in exp_calls][:6]))
+        raise Violation('portfolio construction ran at %s; scheduled %s instants at/after burn-in %s are %s%s' % (
+            [str(x) for x in r.calls][:6], cfg['rebalance'], burn, [str(x) for x in exp_calls][:6],
+            '' if own == sched else ' (the session derived the schedule %s)' % [str(x) for x in own][:6]))
     adates = [row['Date'] for row in r.allocations]
     if adates != exp_calls:
         raise Violation('allocation rows dated %s, expected %s' % ([str(x) for x in adates][:6], [str(x) for x in exp_calls][:6]))
